@@ -49,6 +49,7 @@ var expected = map[string][]string{
 	"select-loop-drain": {"2 true"},
 	"timer-vs-stop":     {"stop", "timer"},
 	"timer-stopped":     {"quiet"},
+	"once-rearmed":      {"11"},
 }
 
 func explore(name string, f func() string, cache bool, bound int) ([]string, *vsched.Stats) {
